@@ -615,6 +615,8 @@ func skipTags(b []byte) ([]byte, bool) {
 
 // ---- running one case ----
 
+var dbgDump bool
+
 var (
 	seenMu  sync.Mutex
 	seenMax time.Duration
@@ -713,6 +715,7 @@ func runPlan(tt *testing.T, p *plan) (errs []string, digest string, nontrivial b
 			br.KillConns()
 			sb.WaitTimeout(done, time.Hour)
 		}
+		e.Settle()
 		frames = br.Frames()
 		for _, c := range br.Conns() {
 			s, _ := c.Sent()
@@ -722,6 +725,17 @@ func runPlan(tt *testing.T, p *plan) (errs []string, digest string, nontrivial b
 	mu.Lock()
 	defer mu.Unlock()
 
+	if dbgDump {
+		for _, f := range frames {
+			fmt.Printf("frame seq=%d conn=%d connseq=%d key=%d v=%d corr=%d tok=%q\n", f.Seq, f.Conn, f.ConnSeq, f.Key, f.Version, f.CorrID, tokenOfRequest(&f))
+		}
+		for i, s := range sents {
+			fmt.Printf("conn %d sent %d bytes\n", i, len(s))
+		}
+		for i, r := range results {
+			fmt.Printf("call %d err=%v took=%v\n", i, r.err, r.took)
+		}
+	}
 	// reference pairing per connection
 	byConn := map[int][]sb.Frame{}
 	for _, f := range frames {
